@@ -53,9 +53,8 @@ def tasks(base_seed, tier):
     tracers = c04.TRACERS_THOROUGH       # all four styles, also in the quick tier
     for name in sorted(progs.SPECIAL):
         for tr in tracers:
-            if name.startswith('recursion') or name == 'mutual_recursion':
-                if tr != 'none':
-                    continue
+            # (unbounded recursion under every style too: a Python-level tracer at the recursion limit fails itself and
+            # CPython then uninstalls it, so 'restore only if still installed' shortcuts are wrong exactly there)
             out.append({'id': 'special:%s:%s' % (name, tr), 'kind': 'special', 'name': name, 'tracer': tr, 'tier': tier})
     for i in range(n_enum):
         out.append({'id': 'enum:%d' % i, 'kind': 'enum', 'seed': seeds.run_seed(base_seed, i), 'tier': tier})
